@@ -212,10 +212,19 @@ func runOps(cx context.Context, db *sql.DB, conn *sql.Conn, ops []Op, names []st
 			var r opResult
 			if *tx == nil {
 				var err error
+				var opts *sql.TxOptions
+				switch op.Note {
+				case "read-only":
+					opts = &sql.TxOptions{ReadOnly: true}
+				case "serializable":
+					opts = &sql.TxOptions{Isolation: sql.LevelSerializable}
+				case "read-committed-ro":
+					opts = &sql.TxOptions{Isolation: sql.LevelReadCommitted, ReadOnly: true}
+				}
 				if conn != nil {
-					*tx, err = conn.BeginTx(cx, nil)
+					*tx, err = conn.BeginTx(cx, opts)
 				} else {
-					*tx, err = db.BeginTx(cx, nil)
+					*tx, err = db.BeginTx(cx, opts)
 				}
 				if err != nil {
 					r.Err = err.Error()
@@ -628,7 +637,13 @@ func drawOps(rt *rapid.T, c *Case) {
 		k := rapid.IntRange(0, 19).Draw(rt, "opClass")
 		switch {
 		case k == 0 && !inTx:
-			c.Ops = append(c.Ops, Op{Kind: "begin"})
+			b := Op{Kind: "begin"}
+			if !global {
+				// transaction options reach the database through the proxy as they are (outside a global
+				// transaction; inside one the proxy owns the local transaction)
+				b.Note = rapid.SampledFrom([]string{"", "", "", "read-only", "serializable", "read-committed-ro"}).Draw(rt, "txOpts")
+			}
+			c.Ops = append(c.Ops, b)
 			inTx = true
 		case k == 1 && inTx:
 			c.Ops = append(c.Ops, Op{Kind: rapid.SampledFrom([]string{"commit", "commit", "rollback"}).Draw(rt, "end")})
